@@ -318,6 +318,10 @@ func checkC15(c *core.Ctx) {
 		if sym != "" {
 			target += "_" + sym
 		}
+		// a slash chord is still described from its root, whatever the bass
+		if j%4 == 2 {
+			target += "/" + roots[(j/7)%len(roots)].String()
+		}
 		args := []string{"info", "chord", "describe", "-t", target}
 		if sharp {
 			args = append(args, "-s")
@@ -400,6 +404,85 @@ func checkC15(c *core.Ctx) {
 			c.Eval(1)
 		}
 		c.Nontrivial(sig)
+	})
+
+	// ---------- CLI level: user attributes whose names are easily confused: names that differ only in case
+	// (M3/m3), names that are themselves valid degree notation but denote another interval ("7" = b7, "3" = b3)
+	type tricky struct{ name, degree string }
+	trickies := []tricky{{"M3", "3"}, {"m3", "b3"}, {"M7", "7"}, {"m7", "b7"}, {"M2", "2"}, {"m2", "b2"}, {"M6", "6"}, {"m6", "b6"}, {"P5", "5"}, {"p5", "b5"},
+		{"7", "b7"}, {"3", "b3"}, {"9", "#9"}, {"b5", "5"}, {"#11", "11"}, {"13", "b13"}, {"1", "8"}, {"major3", "3"}, {"Major3x", "b3"}, {"perfect5", "#5"}}
+	var ta []userAttr
+	var tnames []string
+	for _, t := range trickies {
+		ta = append(ta, userAttr{Name: t.name, Degree: t.degree})
+		tnames = append(tnames, t.name)
+	}
+	tAttr := c.Scratch.File("tricky-attr.yml", attrsYAML(ta))
+	tChord := c.Scratch.File("tricky-chord.yml", chordsYAML([]userChord{{Name: "Ztricky", Display: "ztr", Attrs: tnames}}))
+	c.Stream("userattr", len(trickies)*3+len(roots), func(i int, r *rand.Rand) {
+		if i >= len(trickies)*3 {
+			// the chord that lists them all, from every root
+			root := roots[i-len(trickies)*3]
+			res := run(c, nil, "info", "chord", "describe", "-t", root.String()+"_ztr", "--attr", tAttr, "--chord", tChord)
+			c.Eval(1)
+			if infra(c, res) {
+				return
+			}
+			sig := "userattr:chord:" + root.String()
+			if a := abnormal(res); a != "" || !res.OK() {
+				c.Violate("userattr", i, sig+":failed", "info chord describe with a user dictionary of confusable attribute names fails "+a, obs(res))
+				return
+			}
+			m, err := yamlMap(res.Stdout)
+			got := asList(m["attributes"])
+			if err != nil || len(got) != len(trickies) {
+				c.Violate("userattr", i, sig+":count", fmt.Sprintf("%d attributes described, %d listed (err=%v)", len(got), len(trickies), err), obs(res))
+				return
+			}
+			for k, a := range got {
+				am, _ := a.(map[string]any)
+				iv, _ := theory.ParseNotation(trickies[k].degree)
+				want, _ := theory.Size(iv.N, iv.Q)
+				if mustInt(am["semitone"]) != want {
+					c.Violate("userattr", i, "userattr:chord-size:"+trickies[k].name, fmt.Sprintf("user attribute %q (degree %s) inside a chord is reported with %d semitones, its definition says %d", trickies[k].name, trickies[k].degree, mustInt(am["semitone"]), want), obs(res))
+					return
+				}
+				if probs := describedNoteProblems(am, root, false); len(probs) > 0 {
+					c.Violate("userattr", i, "userattr:chord-note:"+trickies[k].name, strings.Join(probs, "; "), obs(res))
+					return
+				}
+			}
+			c.Nontrivial(sig)
+			return
+		}
+		t := trickies[i%len(trickies)]
+		root := roots[r.Intn(len(roots))]
+		res := run(c, nil, "info", "attr", "describe", "-t", t.name, "-r", root.String(), "--attr", tAttr)
+		c.Eval(1)
+		if infra(c, res) {
+			return
+		}
+		sig := "userattr:" + t.name
+		if a := abnormal(res); a != "" || !res.OK() {
+			c.Violate("userattr", i, sig+":failed", fmt.Sprintf("info attr describe -t %s with a user dictionary defining it fails %s", t.name, a), obs(res))
+			return
+		}
+		m, err := yamlMap(res.Stdout)
+		if err != nil {
+			c.Violate("userattr", i, sig+":yaml", err.Error(), obs(res))
+			return
+		}
+		iv, _ := theory.ParseNotation(t.degree)
+		want, _ := theory.Size(iv.N, iv.Q)
+		if mustInt(m["semitone"]) != want {
+			c.Violate("userattr", i, sig+":size", fmt.Sprintf("user attribute %q is defined as degree %s (%d semitones) but described with %d semitones", t.name, t.degree, want, mustInt(m["semitone"])), obs(res))
+			return
+		}
+		if probs := describedNoteProblems(m, root, false); len(probs) > 0 {
+			c.Violate("userattr", i, sig+":note", strings.Join(probs, "; "), obs(res))
+			return
+		}
+		c.Nontrivial(sig + root.String())
 	})
 }
 
